@@ -21,8 +21,14 @@ structure Ops (α : Type) where
 
 variable {α : Type}
 
-/-- `std::sort(values.begin(), values.end())` -/
-def sortVals (ops : Ops α) (vals : List α) : List α := vals.mergeSort (fun a b => !ops.lt b a)
+/-- `std::sort(values.begin(), values.end())`: the sorted arrangement of the values.  (Insertion sort, so that the kernel
+can evaluate concrete witnesses; for a total order the result of any sort is the same up to the order of equal
+elements, which for floats differ at most in the sign of zero.) -/
+def insertSorted (ops : Ops α) (x : α) : List α → List α
+  | [] => [x]
+  | y :: ys => if ops.lt x y then x :: y :: ys else y :: insertSorted ops x ys
+
+def sortVals (ops : Ops α) (vals : List α) : List α := vals.foldr (insertSorted ops) []
 
 /-- one step of the `MakeBins` loop: bin `i` of `bins` over `n = vals.length` sorted values -/
 def binCenter (ops : Ops α) (sorted : List α) (bins : Nat) (prev : α) (i : Nat) : α :=
